@@ -54,13 +54,18 @@ func runC16(c *core.Ctx) {
 		guardedBy(c, lc, el, "C16.guarded-by", g)
 	}
 
-	objects := c.Field("bus", "serviceImpl", "objects")
-	boxes := c.Field("bus", "serviceImpl", "boxes")
+	objects := fld(c, "bus", "serviceImpl", "objects")
+	boxes := fld(c, "bus", "serviceImpl", "boxes")
 	if objects == nil || boxes == nil {
 		c.Undecided("C16.tables", "bus.serviceImpl", token.NoPos, "objects/boxes fields not found")
 		return
 	}
 	class := core.LockClass{Owner: "bus.serviceImpl", Field: "RWMutex"}
+	if st := strct(c, "bus", "serviceImpl"); st != nil {
+		if cl, ok := guardOf(c, lc, "bus", st, objects, "RWMutex"); ok {
+			class = cl
+		}
+	}
 
 	c.Doc("C16.tables", "objects[k] and boxes[k] are inserted/deleted together in one critical section", 5)
 	for _, fn := range fns {
@@ -289,7 +294,7 @@ func ruleUniqueID(c *core.Ctx, objects *types.Var) {
 func ruleSubscribersTold(c *core.Ctx) {
 	const rule = "C16.subscribers"
 	fn := c.Func("bus", "signalHandler", "OnTerminate")
-	sigF := c.Field("bus", "signalHandler", "signals")
+	sigF := fld(c, "bus", "signalHandler", "signals")
 	sendT := c.Func("bus", "signalHandler", "sendTerminate")
 	if fn == nil || sigF == nil || sendT == nil {
 		c.Undecided(rule, "bus.signalHandler.OnTerminate", token.NoPos, "anchor not found")
@@ -337,7 +342,7 @@ func ruleSubscribersTold(c *core.Ctx) {
 // constant (an id handed out is never handed out again).
 func ruleClientIDs(c *core.Ctx, lc *core.LockCache) {
 	const rule = "C16.client-ids"
-	idF := c.Field("bus", "clientService", "nextID")
+	idF := clientServiceNextID(c)
 	if idF == nil {
 		c.Undecided(rule, "bus.clientService.nextID", token.NoPos, "anchor not found")
 		return
@@ -375,7 +380,7 @@ func ruleMailboxNeverClosed(c *core.Ctx) {
 				if ch == nil {
 					continue
 				}
-				if core.TypeIs(ch.Type(), "bus", "MailBox") || isFieldOf(ch, c.Field("bus", "serviceImpl", "boxes")) {
+				if core.TypeIs(ch.Type(), "bus", "MailBox") || isFieldOf(ch, fld(c, "bus", "serviceImpl", "boxes")) {
 					n++
 					c.Fail(rule, "close(MailBox)@"+core.FuncKey(fn), in.Pos(), "a mailbox is closed while connection goroutines may be about to send to it (Receive sends after releasing the lock): send on closed channel panics the server")
 				}
